@@ -556,8 +556,10 @@ func (u *Unit) applyContract(st *State, ct *Contract, pk, key string, _ any, sig
 		}
 	}
 	post := u.calleeEnv(st, pre, ct, pk, sig, declSig, recv, postArgs, results)
+	post.oldNames = map[string]Val{}
 	for k, v := range oldNames {
 		post.names[k] = v
+		post.oldNames[strings.TrimPrefix(k, "old_")] = v
 	}
 	if lit != nil {
 		post.scope = env.scope
